@@ -42,7 +42,7 @@ def run(model: Model, rep: Report, tier: str) -> None:
         "conditions for a normal form; full confluence of the rewriting is not decided."
     )
     rep.trusted_base = ["Python's sorted is stable and total on tuples of comparable components", "dataclass(eq=True) compares all fields"]
-    rep.floors = {"R11.1": 5, "R11.2": 1, "R11.3": 5, "R11.4": 8, "R11.5": 1}
+    rep.floors = {"R11.1": 5, "R11.2": 1, "R11.3": 5, "R11.4": 8, "R11.5": 2}
     classes = concrete_expression_classes(model)
     r11_1(model, rep, classes)
     r11_2(model, rep, classes)
@@ -492,3 +492,71 @@ def r11_5(model: Model, rep: Report) -> None:
     if len(keys) != 1 or None in keys:
         problems.append(f"children and parents are not sorted with one key function: {[show(k) if k else None for k in keys]}")
     (rep.refuted if problems else rep.proven)("R11.5", construct(f, "one-key"), "; ".join(problems), loc(f))
+    _order_agreement(model, rep)
+
+
+def _outer_sort_key(v: Term):
+    """('sorted', key term or None) when the value is sorted(...) under tuple()/list() wrappers, else ('unsorted', None)."""
+    while v[0] == "call" and v[1] in ("tuple", "list") and len(v[2]) == 1 and not v[3]:
+        v = v[2][0]
+    if v[0] == "call" and v[1] == "sorted" and len(v[2]) == 1:
+        kw = dict(v[3])
+        if kw.get("reverse") not in (None, const(False)):
+            return ("sorted-reverse", kw.get("key"))
+        return ("sorted", kw.get("key"))
+    return ("unsorted", None)
+
+
+def _order_agreement(model: Model, rep: Report) -> None:
+    """The canonicaliser sorts the variables of a probability by their position in the ordering `ensure_ordering` hands it; Sum.simplify
+    rebuilds a marginalised joint through Distribution.safe, which sorts by its own key.  canon(Sum[A](P(A, X2, X10))) is a fixed point only
+    if both orders are the same one -- every ordering ensure_ordering can return is `sorted(..., key=K)` with the K Distribution.safe uses."""
+    from ..terms import NONE, alpha_normalise
+
+    eo = model.functions.get(f"{DSL}.ensure_ordering")
+    ds = model.functions.get(f"{DSL}.Distribution.safe")
+    if eo is None or ds is None:
+        rep.unknown("R11.5", "y0.dsl:ensure_ordering#order-agreement", "ensure_ordering / Distribution.safe not found", "")
+        return
+    cons = construct(eo, "order-agreement")
+    VAR = ("cls", f"{DSL}.Variable")
+    got = []  # (where, kind, key)
+    try:
+        for label, ordering in (("given ordering", None), ("default ordering", NONE)):
+            ev = Evaluator(model)
+            e = typed(ev, "expression", ("cls", EXPR))
+            o = typed(ev, "ordering", ("iter", VAR)) if ordering is None else ordering
+            for r in return_paths(ev.run(eo, {"expression": e, "ordering": o})):
+                if ev.infeasible(r.conds):
+                    continue
+                kind, key = _outer_sort_key(r.value)
+                got.append((f"ensure_ordering ({label}, line {r.line})", kind, alpha_normalise(key) if key is not None else None))
+        ev = Evaluator(model)
+        d = typed(ev, "distribution", ("iter", VAR))
+        ref_keys = []
+        for r in return_paths(ev.run(ds, {"distribution": d, "args": ("tuplelit", ())}, self_term=("ref", f"{DSL}.Distribution"))):
+            v = r.value
+            if v[0] in ("rec", "new") and str(v[1]).endswith("Distribution"):
+                ch = (dict(v[2]) if v[0] == "rec" else dict(v[3])).get("children")
+                if ch is not None:
+                    kind, key = _outer_sort_key(ch)
+                    ref_keys.append((kind, alpha_normalise(key) if key is not None else None))
+    except Exception as ex:  # noqa: BLE001
+        rep.unknown("R11.5", cons, f"could not be evaluated: {type(ex).__name__}", loc(eo))
+        return
+    if not got or not ref_keys:
+        rep.unknown("R11.5", cons, "no return path of ensure_ordering / no Distribution built by Distribution.safe(<iterable>) was read", loc(eo))
+        return
+    if len(set(ref_keys)) != 1:
+        rep.unknown("R11.5", cons, "Distribution.safe(<iterable>) orders its children in more than one way", loc(ds))
+        return
+    want = ref_keys[0]
+    bad = [f"{w}: {k} by {show(key) if key else 'natural order'}" for w, k, key in got if (k, key) != want]
+    sample = {"Distribution.safe(<iterable>) children": f"{want[0]} by {show(want[1]) if want[1] else 'natural order'}", "orderings read": len(got)}
+    if bad:
+        rep.refuted("R11.5", cons, "the ordering the canonicaliser sorts by and the order in which Sum.simplify rebuilds a marginalised joint (Distribution.safe: "
+                    + sample["Distribution.safe(<iterable>) children"] + ") differ -- " + "; ".join(bad)
+                    + " -- so canonicalize(Sum[A](P(A, X2, X10))) is not a fixed point of canonicalize", loc(eo), sample=sample)
+    else:
+        rep.proven("R11.5", cons, loc=loc(eo), sample=sample)
+
